@@ -203,10 +203,19 @@ impl Backend {
         // Each dependency is an outgoing call
         for dep_name in &definition.dependencies {
             // Resolve the dependency to its definition
-            if let Some(dep_def) = self
-                .fixture_db
-                .resolve_fixture_for_file(&file_path, dep_name)
-            {
+            // A fixture that requests its own name depends on the definition it overrides,
+            // never on itself
+            let resolved = if dep_name == &definition.name {
+                self.fixture_db.find_closest_definition_excluding(
+                    &file_path,
+                    dep_name,
+                    Some(definition),
+                )
+            } else {
+                self.fixture_db
+                    .resolve_fixture_for_file(&file_path, dep_name)
+            };
+            if let Some(dep_def) = resolved {
                 let Some(dep_uri) = self.path_to_uri(&dep_def.file_path) else {
                     continue;
                 };
